@@ -108,6 +108,19 @@ def u_resolve_method(c):
             st, ok2 = run(it, it.getattr(sel2, "check_captures"), [caps2])
             c.prove("receiver-constraint/no-raise", st == "ok")
             c.prove("receiver-constraint/accepts-iff-receiver-is-the-object(identity)", st == "ok" and term_of(it, ok2) == (x.t == receiver.t))
+            # a SECOND object of the population, distinct from the first but possibly equal to it (==, same hash), selected
+            # afterwards through the same method: its constraint must admit exactly ITS calls
+            r2 = c.val("receiver2")
+            c.assume(z3.And(z3.Not(Val.is_ref(r2.t)), r2.t != receiver.t))
+            target2 = _bound_method(c, func, r2)
+            sel_b = it.call(Call, [], dict(element=it.call(Element, [], dict(name=target2)), captures=(cap,)))
+            stb, rb = run(it, it.get_global(S, "_resolve"), [sel_b, {}, cnt])
+            c.prove("second-object/select-does-not-raise", stb == "ok")
+            if stb == "ok" and len(rb.fields["captures"]) == 2:
+                rcb = rb.fields["captures"][1]
+                sel3 = mk_obj(it, S, "Call", all_values=[rcb])
+                st, ok3 = run(it, it.getattr(sel3, "check_captures"), [{selfname: mk_obj(it, "ptera.interpret", "Capture", values=[x])}])
+                c.prove("second-object/constraint-admits-exactly-its-own-receiver", st == "ok" and term_of(it, ok3) == (x.t == r2.t))
     else:
         c.prove("class-selector-has-no-receiver-constraint", len(caps) == 1 and caps[0].fields["name"] == "v")
 
